@@ -62,6 +62,7 @@ structure Stats where
   leaves : Nat := 0
   gapLeaves : Nat := 0      -- leaves whose byte range contains excluded bytes (literal reading of "covers excluded text")
   quirks : Nat := 0         -- boundaries that sit on an EMPTY given range instead of ψ's image (tolerated, reported separately)
+  quirkPos : List Nat := [] -- the positions of those boundaries
   quirkMsg : String := ""
   fail : Option String := none
 
@@ -135,6 +136,7 @@ mutual
               st.bad s!"position: node [{s.bytes},{e.bytes}) has points {s.extent.row}:{s.extent.column}-{e.extent.row}:{e.extent.column}, the document says {(pointAt doc s.bytes).row}:{(pointAt doc s.bytes).column}-{(pointAt doc e.bytes).row}:{(pointAt doc e.bytes).column}"
             else if (!okS && startQuirk) || (!okE && endQuirk) then
               { st with quirks := st.quirks + 1,
+                        quirkPos := (if !okS && startQuirk then [s.bytes] else []) ++ (if !okE && endQuirk then [e.bytes] else []) ++ st.quirkPos,
                         quirkMsg := if st.quirks == 0 then s!"node [{s.bytes},{e.bytes}) has a boundary on an empty included range; ψ gives [{ss},{es'})" else st.quirkMsg }
             else st
           | none => st.bad s!"position: non-empty node at concat offset {sC} beyond the concatenation"
@@ -168,6 +170,10 @@ mutual
     | [] => false
     | t :: ts => anyColumn t || anyColumnL ts
 end
+
+/-- Positions of the given ranges with `start = end` (truly empty). -/
+def trueEmptyPositions (rs : List TSRange) : List Nat :=
+  (rs.filter fun r => r.start_byte ≥ r.end_byte).map (·.start_byte)
 
 /-- Does the tree contain an error (ERROR / MISSING node)? -/
 def hasError (t : Tree) : Bool := t.data.errorCost > 0 || t.data.isMissing || t.data.symbol == 65535
